@@ -83,7 +83,7 @@ def linear_spline(
         input_offsets = offsets.gather(-1, inv_bin_idx)[..., 0]
 
         outputs = (inputs - input_offsets) / input_slopes
-        outputs = torch.clamp(outputs, 0, 1)
+        outputs = torchutils.clamp_preserve_gradients(outputs, 0, 1)
 
         logabsdet = -torch.log(input_slopes)
     else:
@@ -98,7 +98,7 @@ def linear_spline(
 
         outputs = cdf.gather(-1, bin_idx[..., None])[..., 0]
         outputs += alpha * input_pdfs
-        outputs = torch.clamp(outputs, 0, 1)
+        outputs = torchutils.clamp_preserve_gradients(outputs, 0, 1)
 
         bin_width = 1.0 / num_bins
         logabsdet = torch.log(input_pdfs) - np.log(bin_width)
